@@ -29,6 +29,7 @@ from unittest import mock
 
 import numpy as np
 
+import c18_args
 import common
 from common import float_key
 
@@ -135,6 +136,40 @@ THEOREMS.update({
     'C18_model_is_source_cli_calculate_scores': 'the translation of the whole function calculate_scores.main regenerated on this run equals, for every record L of library functions and all parsed arguments, Cli.cli_calculate_scores: score_chunk is handed the loaded screen, the concatenated thetas / distance-matrix files (argument order), rng = Some (the generator derived from --seed), --n-chunks, --chunk-index, the --batch-plate-ids list, and its result is saved to --output (the repaired defect 9b38441 was the missing rng=)',
 })
 EXPLANATION += ("Source-translation links of the CLI wrapper (round 2b): calculate_scores.main and get_prng_from_seed_argument are re-translated as WHOLE functions on every run (Generated/SrcCli.v) and proved equal to Model/Cli.v.  They trust the translator harness/py2gal.py (for these links extended by cfg typed_effects, kwcalls keys `module.function`, state_calls assigned to a tuple), the representation of Model/Cli.v (parsed arguments = a record of the plain argparse results, get_args() not translated = the primitive `get_args()` yielding that record; a main() denotes the list of (path, content) files it writes; `L` = ANY record of library functions over abstract types) and EXACTLY these primitives of harness/src_functions.py, each one field read / one library or constructor call standing for the function of that name (whose own link, where it exists, is the one of its property): CLI_PRNG (get_prng_from_seed_argument, reads args.seed only): numpy.random.SeedSequence(s).generate_state(1)[0] = seedseq_word mix s (ValueError for s < 0, `mix` an arbitrary function of the seed), numpy.random.default_rng(w) = Gen w. CLI_CALCULATE_SCORES: the fields of `args` read as the record's projections (a store to one is refused); ignored: log_config.configure_logging(args), logger.info/warning; Screen.load_h5(p), args.scorer_cls(**args.scorer_params), ThetaHolder(n_thetas=1) (a handle), h.load_h5(p), h.concat(l), ChunkedDistanceMatrix.load(p) / .concat(l), sum(l), s.plates, p.is_observed, p.plate_id (the three only feed a log line), get_prng_from_seed_argument(args) = the TRANSLATED function on the record's seed, the keyword call score_chunk(...) with the defaults of its signature (rng=None, progress_bar=False, n_chunks=1, chunk_index=0, batch_plate_ids=None; WHICH keywords are passed is read from the source), typed effect r.save_h5(p) = append (p, r) to the written files. ")
+# ---- the argument-handling glue (cli/argument_parsing.py, introspection.py, calculate_scores.get_args, main as a whole command)
+THEOREMS.update({
+    'C18_model_is_source_cli_args_str_to_bool': 'the translation of the WHOLE function argument_parsing.str_to_bool regenerated on this run equals Cli.str_to_bool, for every lower() and all strings',
+    'C18_model_is_source_cli_args_cast_dict_to_type': 'the translation of the WHOLE function argument_parsing.cast_dict_to_type equals Cli.cast_dict (items in dict order; per item the annotation lookup, KeyError 25, then the converter of the table or the annotation itself; first exception aborts), for every record of string primitives',
+    'C18_model_is_source_cli_args_kv_append_action': 'the translation of the WHOLE method KVAppendAction.__call__ equals Cli.kv_append on the namespace seen at the destination attribute: nargs assertion, split("=", 2) unpacked into two names, ArgumentError otherwise, stored into the dict so far (or a new one)',
+    'C18_model_is_source_cli_args_get_args': 'the translation of the WHOLE function calculate_scores.get_args (parse_args() = the raw namespace) equals Cli.cs_get_args: class lookup by --scorer among Scorer subclasses, its required-argument annotations, --scorer-param cast by them ({} when none)',
+    'C18_model_is_source_cli_args_calculate_scores': 'calculate_scores.main translated as a whole command (get_args() = the translated get_args; args.scorer_cls(**args.scorer_params) = construct on the two attributes) equals: resolve --scorer / --scorer-param, then Cli.cli_calculate_scores whose cs_mk_scorer IS the resolved class instantiated with the cast parameters',
+    'C18_model_is_source_cli_args_get_class': 'the translation of the WHOLE function introspection.get_class equals Cli.get_class: modules of the package in walk order, the first truthy attribute of that name decides (ValueError when not a subclass), None when there is none',
+    'C18_model_is_source_cli_args_create_instance': 'the translation of the WHOLE function introspection.create_instance equals Cli.create_instance (NameError when get_class found nothing)',
+    'C18_model_is_source_cli_args_get_required_init_args_with_annotations': 'the translation of the WHOLE function equals Cli.required_args: TypeError for a non-class, else the parameters other than self without default, in signature order, annotation or None',
+    'C18_model_is_source_cli_args_calculate_scores_world': 'the whole command with the introspection record made of the TRANSLATED get_class / get_required_init_args_with_annotations equals the model over the importlib / pkgutil / inspect primitives',
+    'C18_cli_args_unknown_bool_raises': 'a string whose lower() is none of the ten spellings makes str_to_bool raise ValueError',
+    'C18_cli_args_bool_spellings': 'the five true / five false spellings give True / False, and an answer b implies a spelling of b (so `no` can never read as True)',
+    'C18_cli_args_converter_table': 'per annotation: bool -> str_to_bool (not bool(s)), int -> int(s), float -> float(s), str -> s, no annotation -> TypeError, any other annotation is called on the string',
+    'C18_cli_args_cast_exact': 'for a dict (distinct keys) cast_dict = map of the per-item conversion in dict order: exactly the typed values, or the first failing item\'s exception',
+    'C18_cli_args_kv_word': 'one word: KEY=VALUE without further = is stored (later VALUE of a repeated KEY wins in place); no = is an ArgumentError; a VALUE containing = is an ArgumentError too (maxsplit is 2)',
+    'C18_cli_args_words_cast_exactly': 'end to end: words KEY=VALUE... (distinct keys, no = inside) accumulated in command-line order and cast are exactly the per-item conversions in command-line order',
+    'C18_cli_args_get_class_subclass': 'what get_class returns is truthy and a subclass of the requested base class',
+    'C18_cli_args_unknown_class_is_type_error': 'a class name no module defines ends the class resolution with TypeError "The given object is not a class."',
+    'C18_cli_args_required_args_table': 'the required-argument table never holds the empty marker nor self',
+})
+EXPLANATION += c18_args.explanation(
+    ["str_to_bool", "cast", "kv", "get_args", "cmd", "introspection"],
+    "argument_parsing.str_to_bool / cast_dict_to_type / KVAppendAction.__call__, introspection.get_class / create_instance / "
+    "get_required_init_args_with_annotations, calculate_scores.get_args and calculate_scores.main as a whole command are") + (
+    "Runtime part for the glue (kind cli_args, harness/c18_args.py): differential correspondence of the same functions with the extracted models "
+    "(ops 7-12 of Run/RunC18.v), the library primitives evaluated on the real libraries and handed to the model as answer tables (so str.lower / "
+    "int / float / str.split / inspect.signature / walk_packages / import_module / issubclass are exercised), exception CLASSES compared through "
+    "the error tags, plus the property's own predicates (documented spellings; values typed exactly by their key's annotation, in order; "
+    "KEY=VALUE words stored whole or refused, never cut; required arguments = the signature's; get_class returns a subclass of the base) and "
+    "get_args() of the four wrappers run on generated command lines (the named class, the parameters typed by THAT class's annotations, "
+    "--holdout-fraction unchanged).  Observations on the unchanged tree (not property violations): a VALUE containing '=' is refused although "
+    "the docstring says 'split on the first ='; only arguments WITHOUT default are castable, so e.g. --scorer-param max_chunk=10 for "
+    "GaussianDBALScorer is a KeyError.  ")
 TRUSTED = [
     "unittest.mock patching of numpy.random attributes and the stack walk that attributes trapped calls to files under /repo/src/batchie",
     "RecordingGenerator (python subclass of numpy.random.Generator sharing the seeded bit generator) does not change the stream",
@@ -980,6 +1015,8 @@ def _cmp_conf(m, i):
 
 
 def run(desc):
+    if desc.get("kind") == "cli_args":      # the argument-handling glue: plain differential cases (harness/c18_args.py)
+        return c18_args.run_case(desc)
     pred, sig, feats, (r1, r2) = judge(desc)
     d = core_of(desc)
     wire = impl = None
@@ -999,6 +1036,8 @@ def run(desc):
 
 
 def shrink(desc):
+    if desc.get("kind") == "cli_args":
+        return
     sc = desc.get("screen")
     if sc and sc["n_rows"] > max(4, sc["n_samples"]):
         yield dict(desc, screen=dict(sc, n_rows=max(4, sc["n_samples"], sc["n_rows"] // 2)))
@@ -1049,6 +1088,8 @@ def extra(tier):
 
 
 def signature(desc, res):
+    if desc.get("kind") == "cli_args":
+        return "cli_args:%s" % desc.get("op")
     return res.get("sig") or ("%s:%s" % (op_name(core_of(desc)), desc.get("aspect")))
 
 
@@ -1067,6 +1108,7 @@ def gen(rng, tier):
     cases = list(_gen(rng, tier))
     prefetch_hash(cases)
     yield from cases
+    yield from c18_args.gen_cases(rng, tier)
 
 
 def _gen(rng, tier):
